@@ -30,6 +30,10 @@ checks = {
          "Certificate store equals the history model after every tx (unique per owner+serial, only valid->revoked, never removed); every listing (filters x page sizes x key/offset paging) returns without error or panic exactly the model's answer."),
  "C19": ("chainsim", "seeded simulation with create-deployment messages at and beyond every bound, gas aborts; independent big-integer predicate + stored-state scan",
          "accepted => within every limit of the limits table; rejected => no effect; every stored deployment satisfies the limits after every tx."),
+ "C13": ("provsim", "seeded actor-level scheduling (synctest bubble) of the real bid engine against parked chain/cluster/pricing calls with event, failure, clock and crash faults; call-log oracle",
+         "Real bidengine service + order monitors + real bus; every outside call parks until the seeded scheduler completes or fails it, chain events are delivered/lost at every pipeline point, clock jumps fire the bid timeout, the provider crashes and restarts (catch-up with and without an existing bid). Oracle over the call log: <=1 create-bid per order and incarnation, price <= max, reservation completed before the bid, and after handling ended without LeaseWon every granted reservation is followed by Unreserve and every placed bid by a close-bid. Layer 1 (one stimulus per quiescent point)."),
+ "C15": ("provsim", "seeded operation histories on the real bus in a synctest bubble; operation-by-operation conformance with a per-subscriber queue model, every operation must return by the next quiescent point",
+         "publish/subscribe/clone/read/close histories on the real pubsub bus (real go-lifecycle), compared with a queue model: every subscriber gets every event published after its subscription exactly once in order, a clone inherits exactly the undelivered events, stalled readers and closes never block publishers or others. Layer 1: histories are sequential at the API (each operation completes before the next starts); goroutine-level interleavings inside the bus are not enumerated."),
 }
 
 not_applicable = [
@@ -41,9 +45,7 @@ pending = {
  "C10": "applicable (provsim manifest harness) - check not built yet in this revision",
  "C11": "applicable (kubesim engine) - check not built yet in this revision",
  "C12": "applicable (provsim) - check not built yet in this revision",
- "C13": "applicable (provsim) - check not built yet in this revision",
  "C14": "applicable (provsim) - check not built yet in this revision",
- "C15": "applicable (provsim) - check not built yet in this revision",
  "C20": "applicable (provsim) - check not built yet in this revision",
 }
 
@@ -88,8 +90,8 @@ def main():
         json.dump(man, f, indent=1)
         f.write("\n")
 
-EXTRA_NOTES = {}
-ENGINE_TEXT = {}
+EXTRA_NOTES = {"provsim": "Trusted base: Go runtime and testing/synctest (fake clock, quiescence detection); chain, cluster and pricing are scripted stubs; Layer 1 explores the order in which stimuli reach the actors, not interleavings inside one stimulus' propagation; sampling only."}
+ENGINE_TEXT = {"provsim": "provider daemon actors (bid engine, cluster service, manifest service, event bus) in a synctest bubble under a seeded scheduler"}
 
 if __name__ == "__main__":
     main()
